@@ -45,11 +45,12 @@ PROPS["C08"] = dict(_common,
     check_fn="check_case_C08",
     rule=_RULE,
     codes={1: "request-outcome", 2: "rejected-step-changed-state", 3: "oneshot-context", 4: "repeated-schedule",
-           5: "paused-issued-batch", 6: "control-by-non-consumer", 7: "callback-count", 8: "queue-marker-consistency"},
+           5: "paused-issued-batch", 6: "control-by-non-consumer", 7: "callback-count", 8: "queue-marker-consistency", 9: "active-request-outside-running-batch"},
     explain={1: "a request changed status other than active->answered (own provider, in time) or active->expired (at its expiry height), or an id was reused, or a request outlived its expiry",
              2: "a rejected step changed an observable", 3: "a one-shot context survived its batch or issued a second batch",
              4: "a repeated running untouched context did not start batch n+1 exactly `frequency` after batch n",
              5: "a paused context issued a batch", 6: "a control message succeeded for someone who is not the consumer (or a user message on a module-owned context)",
              7: "callback invocations differ from one per completed batch (err==nil iff threshold met) / one state callback per automatic pause",
+             9: "an active request whose context is not stored or whose batch is not the running current batch of its context (a batch was closed while a request still awaits its outcome)",
              8: "a queue entry disagrees with the height marker of its context (two entries for one context) or a running batch has no expiry marker"},
 )
